@@ -21,7 +21,7 @@ PROP = {
                   "by lane with the Rust primitive; an operation must panic exactly when some lane's primitive panics in the same profile (release and overflow-checks). "
                   "All 8-bit operand pairs are enumerated in every lane position; 16-bit pairs strided (quick) or completely (thorough, release profile; every 16th pair in the overflow-checking profile, where the operators that panic on overflow are left out of this sweep); wider types by boundary-value pairs "
                   "and boundary-biased random values. Failures shrink to a minimal operand tuple saved as a replay file. Exploration, not proof: exhaustive only where the "
-                  "evidence says so.",
+                  "evidence says so. Besides the release and the overflow-checking profile, a profile with overflow checks but without debug assertions, a +fma,+avx2 build and (for the lane-wise sub-checks) the glam-assert variant are run.",
     "level_note": "Trusted: rustc's integer primitives and their panic behaviour under the two profiles, proptest, the harness. For reductions (element_sum/product, dot, "
                   "length_squared, distance_squared, manhattan_distance) whose intermediate overflow depends on the association order the panic is not judged "
                   "(class order-ambiguous), only the value when no panic occurred.",
